@@ -17,8 +17,10 @@ def mergeOp (j : Json) : Json :=
     | .str "assign" => (acc.1 ++ [Call.assign key (.str "assign".toList)], acc.2)
     | .str "new" => (acc.1 ++ [Call.new_], acc.2)
     | .str "load" => (acc.1 ++ [Call.load "other.vuego".toList], acc.2)
+    | .str "load-page" => (acc.1 ++ [Call.load "page.vuego".toList], acc.2)
     | _ => (acc.1 ++ [Call.fill (single key true (if acc.2 == 0 then "fill" else "fill2"))], acc.2 + 1)) ([], 0)
-  let t := run Generated.mergeCfg E (base Generated.mergeCfg E) (calls ++ [Call.load "page.vuego".toList])
+  let loaded := (jarrK j "calls").any (fun c => match c with | .str "load-page" => true | _ => false)
+  let t := run Generated.mergeCfg E (base Generated.mergeCfg E) (if loaded then calls else calls ++ [Call.load "page.vuego".toList])
   match renderEnv Generated.mergeCfg E t "page.vuego".toList key with
   | some v => S v.sprint
   | none => S []
